@@ -4,8 +4,34 @@ open Lean
 namespace Hdl21.Drv.GenRun
 open Hdl21.J Hdl21.GenRun
 
+partial def parseEv (e : Json) : Except String Ev := do
+  let c ← getNat e "c"
+  let out ← match e.getObjVal? "ok" with
+    | .ok m => do pure (Outcome.ok (← m.getNat?))
+    | .error _ => pure Outcome.raises
+  let catches := match e.getObjVal? "catches" with | .ok (.bool b) => b | _ => false
+  let nested ← match e.getObjVal? "nested" with
+    | .ok (.arr a) => a.toList.mapM parseEv
+    | _ => pure []
+  pure (.call c nested catches out)
+
+def resJson : Result → Json
+  | .module m => Json.mkObj [("module", toJson m)]
+  | .circular => "circular"
+  | .failed => "failed"
+
 def handle (op : String) (j : Json) : Except String Json := do
   match op with
+  | "genrun2" =>
+    let evs ← (← getArr j "calls").toList.mapM parseEv
+    let rec go2 (s : Cache) : List Ev → List Json
+      | [] => []
+      | e :: r =>
+        let (s', res) := runEv s e
+        Json.mkObj [("result", resJson res),
+          ("done", Json.arr (s'.done.map fun (k, v) => Json.arr #[toJson k, toJson v]).toArray),
+          ("pending", toJson s'.pending.length), ("stack", toJson s'.stack.length)] :: go2 s' r
+    pure (Json.mkObj [("trace", Json.arr (go2 Cache.init evs).toArray)])
   | "genrun" =>
     let calls ← (← getArr j "calls").toList.mapM fun e => do
       let c ← getNat e "c"
